@@ -157,12 +157,18 @@ acct_fail_at(uint64_t k)
 uint64_t acct_fail_count(void) { return fail_cnt; }
 int      acct_fail_fired(void) { return fail_fired; }
 
+static uint64_t dump_min_seq;
+void
+acct_dump_since(uint64_t seq)
+{
+	dump_min_seq = seq;
+}
 void
 acct_dump_live(int max)
 {
 	int n = 0;
 	for (unsigned i = 0; i < TBL && n < max; i++) {
-		if (tbl[i].p != NULL && tbl[i].p != (void *) 1) {
+		if (tbl[i].p != NULL && tbl[i].p != (void *) 1 && tbl[i].seq >= dump_min_seq) {
 			fprintf(stderr, "ACCT: live %p size %zu alloc#%llu\n", tbl[i].p, tbl[i].sz,
 			    (unsigned long long) tbl[i].seq);
 			n++;
